@@ -358,6 +358,47 @@ def check_composer_reuse(path):
     return fails[:3]
 
 
+def check_flag_then_children(kind):
+    """a schema key such as `_emit` is declared on a store BEFORE it gets children (by a path that runs through it, or from the
+    initial state of a glob port): the children are built with their declared defaults all the same"""
+    from vivarium.core.store import generate_state
+
+    class Obs(Process):
+        def ports_schema(self):
+            return {'cell': {'_emit': True}}
+
+        def next_update(self, timestep, states):
+            return {}
+
+    class Inner(Process):
+        def ports_schema(self):
+            return {'internal': {'mass': {'_default': 1.0}, 'volume': {'_default': 2.0}}}
+
+        def next_update(self, timestep, states):
+            return {}
+
+    class Glob(Process):
+        def ports_schema(self):
+            return {'agents': {'_emit': True, '*': {'x': {'_default': 3}, 'y': {'_default': 4}}}}
+
+        def next_update(self, timestep, states):
+            return {}
+    try:
+        if kind == 'path':
+            st = generate_state({'obs': Obs(), 'inner': Inner()}, {'obs': {'cell': ('cell',)}, 'inner': {'internal': ('cell', 'internal')}},
+                                {'cell': {'internal': {'mass': 5.0}}})
+            got, want = st.get_value()['cell']['internal'], {'mass': 5.0, 'volume': 2.0}
+        else:
+            st = generate_state({'g': Glob()}, {'g': {'agents': ('agents',)}}, {'agents': {'1': {'x': 10}, '2': {}}})
+            got, want = st.get_value()['agents'], {'1': {'x': 10, 'y': 4}, '2': {'x': 3, 'y': 4}}
+    except Exception as e:
+        return ['flag-then-children (%s) raised %s: %s' % (kind, type(e).__name__, str(e)[:160])]
+    if got != want:
+        return ['a store that carried a schema key (_emit) before it got children (%s): built as %r, declared defaults / initial state give %r'
+                % (kind, got, want)]
+    return []
+
+
 def check_fresh_composites():
     """a composite that was never given any state has none -- whatever was merged into OTHER composites before: an engine built
     from it holds the declared defaults"""
@@ -391,7 +432,8 @@ def main():
     if a.replay:
         d = json.load(open(a.replay))['scenario']
         if 'fixed' in d:
-            fails = check_fresh_composites() if d['fixed'] == 'fresh' else check_composer_reuse(tuple(d['path']))
+            fails = check_fresh_composites() if d['fixed'] == 'fresh' else check_flag_then_children(d['path'][0]) if d['fixed'] == 'flag' \
+                else check_composer_reuse(tuple(d['path']))
             L.emit_result({'status': 'reproduced' if fails else 'not-reproduced', 'failed': fails})
             return
         fails = check_override_scope(tuple(d['override_path'])) if 'override_path' in d else check(d['rng'])
@@ -399,13 +441,13 @@ def main():
         return
     n = 150 if a.tier == 'quick' else 3000
     evaluations = 0; failures = []; samples = []; distinct = set()
-    fixed = [('fresh', None)] + ([] if a.only == 'fresh' else [('reuse', ()), ('reuse', ('colony', 'std'))])
+    fixed = [('fresh', None), ('flag', ('path',)), ('flag', ('glob',))] + ([] if a.only == 'fresh' else [('reuse', ()), ('reuse', ('colony', 'std'))])
     for kind, path in fixed:
         evaluations += 1
         distinct.add('%s-%s' % (kind, path))
-        fails = check_fresh_composites() if kind == 'fresh' else check_composer_reuse(path)
+        fails = check_fresh_composites() if kind == 'fresh' else check_flag_then_children(path[0]) if kind == 'flag' else check_composer_reuse(path)
         if fails:
-            rp = L.write_replay(a.out, a.prop, '%s%d' % (kind, len(path or ())), {'fixed': kind, 'path': list(path or ())}, fails,
+            rp = L.write_replay(a.out, a.prop, '%s%s' % (kind, path[0] if kind == 'flag' else len(path or ())), {'fixed': kind, 'path': list(path or ())}, fails,
                                 extra={'driver': 'bounded.c16'})
             failures.append({'id': '%s.bounded.%s: %s' % (a.prop, kind, fails[0][:300]), 'replay': rp})
     if a.only == 'fresh':
